@@ -10,14 +10,16 @@ Lemma stored_only_if_log_signed_lemma :
   forall H hlen strict ch idhash decode sig_ok sign (threads : list (list op)) tr id raw,
   interleaving threads tr ->
   lookup (run_state H hlen strict ch idhash decode sig_ok sign [] tr) id = Some raw ->
-  exists p h p0, parse idhash decode sig_ok raw id = inl p
+  (exists p h p0, parse idhash decode sig_ok raw id = inl p
     /\ idhash id = Some (Some h) /\ decode raw = Some p0 /\ sig_ok id p = true /\ p_logid p = h
-    /\ p_size p = p_size p0 /\ p_root p = p_root p0.
+    /\ p_size p = p_size p0 /\ p_root p = p_root p0)
+  /\ (exists pf f, In (OUpdate id raw pf f) tr).
 Proof.
-  intros H hlen strict ch idhash decode sig_ok sign threads tr id raw _ Hl.
-  destruct (wf_run H hlen strict ch idhash decode sig_ok sign [] tr (wf_nil _ _ _) id raw Hl) as [p Hp].
-  destruct (parse_ok_inv _ _ _ _ _ _ Hp) as (h & p0 & A & B & C & D & _ & E & F).
-  exists p, h, p0. repeat split; assumption.
+  intros H hlen strict ch idhash decode sig_ok sign threads tr id raw _ Hl. split.
+  - destruct (wf_run H hlen strict ch idhash decode sig_ok sign [] tr (wf_nil _ _ _) id raw Hl) as [p Hp].
+    destruct (parse_ok_inv _ _ _ _ _ _ Hp) as (h & p0 & A & B & C & D & _ & E & F).
+    exists p, h, p0. repeat split; assumption.
+  - destruct (stored_was_submitted H hlen strict ch idhash decode sig_ok sign tr [] id raw Hl) as [A|A]; [discriminate A | exact A].
 Qed.
 
 Lemma sizes_never_shrink_lemma :
